@@ -276,7 +276,7 @@ structure Branch where
   copy : Option Trace
   /-- chain recorded with `Equivalence(in_place=True)` -/
   inplace : Option Trace
-deriving Repr, Inhabited
+deriving DecidableEq, Repr, Inhabited
 
 structure EquivRec where
   name : String
@@ -285,7 +285,7 @@ structure EquivRec where
   /-- keyword parameters of `_convert` and the bits of their defaults -/
   params : List (String × Nat)
   branches : List Branch
-deriving Repr, Inhabited
+deriving DecidableEq, Repr, Inhabited
 
 inductive Mode | copy | inplace
 deriving DecidableEq, Repr, Inhabited
@@ -419,9 +419,14 @@ def orderedTriples (ds : List Dim) : List (Dim × Dim × Dim) :=
   ds.flatMap (fun a => (ds.filter (fun b => b != a)).flatMap
     (fun b => (ds.filter (fun c => c != a && c != b)).map (fun c => (a, b, c))))
 
-/-- every ordered pair of distinct `_dims` has a traced branch that returns a value -/
+/-- every ordered pair of distinct `_dims` has a traced branch that returns a value (copy mode)
+    and leaves a value in the caller's array (in-place mode) -/
 def EquivRec.covered (e : EquivRec) : Bool :=
-  (orderedPairs e.dims).all (fun p => (e.formula p.1 p.2).isSome)
+  (orderedPairs e.dims).all (fun p =>
+    (e.modeFormula .copy p.1 p.2).isSome && (e.modeFormula .inplace p.1 p.2).isSome)
+
+/-- registry look-up by `type_name` finds each record itself (names are distinct) -/
+def namesOk (reg : List EquivRec) : Bool := reg.all (fun e => findEquiv reg e.name == some e)
 
 /-- `B→A ∘ A→B` normalises to the identity -/
 def EquivRec.inverseOk (e : EquivRec) : Bool :=
